@@ -930,6 +930,9 @@ type fracSpec struct {
 	// With Dense > consts.LIDBlockCap the posting list of the token service:c14 spans several LID blocks.
 	Dense       int   `json:"dense,omitempty"`
 	DenseSpread int64 `json:"dense_spread,omitempty"`
+	// SearchBetween: after every bulk wait for the indexer and read the fraction (a full search and the sorted LID list
+	// of all documents), so that the token LID lists are MERGED before the next bulk is queued
+	SearchBetween bool `json:"search_between,omitempty"`
 	// Late (last fraction only): bulks that are written while the index workers are held, so that they are still
 	// queued when the sealing of the fraction begins (readonly set); the workers are released then, the sealer is held
 	// before it builds the sealed fraction and the stage "sealing" is checked in that state
@@ -1025,6 +1028,24 @@ func fracLine(f realFrac, stage string, fr frac.Fraction, probes []uint64) strin
 		hasDist = "dist=yes"
 	}
 	return fmt.Sprintf("C\t%s,%s,%s\tfrac %s %d %s %s\t%s", stage, kind, hasDist, kind, f.ct, strings.Join(bs, ";"), u64s(probes), impl)
+}
+
+// activeOrder checks the invariant every reader of an active fraction relies on (getLIDsBorders' binary searches,
+// the merge nodes): the LIDs of all documents, as the fraction hands them out, are sorted by (MID, RID) descending
+func activeOrder(fm *fracmanager.FracManager) string {
+	a := fracmanager.VerifC07ActiveOf(fm)
+	if a == nil {
+		return "none"
+	}
+	lids := a.GetAllDocuments()
+	mids, rids := a.MIDs.GetVals(), a.RIDs.GetVals()
+	for i := 1; i < len(lids); i++ {
+		p, c := lids[i-1], lids[i]
+		if mids[p] < mids[c] || (mids[p] == mids[c] && rids[p] < rids[c]) {
+			return fmt.Sprintf("unsorted position %d of %d", i, len(lids))
+		}
+	}
+	return fmt.Sprintf("sorted %d", len(lids))
 }
 
 func childMain(path string) {
@@ -1130,10 +1151,17 @@ func childMain(path string) {
 			}
 			return rb
 		}
-		for _, ds := range specBulks {
+		for bi, ds := range specBulks {
 			rf.bulks = append(rf.bulks, sendBulk(ds)) // for the model a bulk is its new documents (survivors of the duplicate filter)
-			if hasDup {
+			if hasDup || fs.SearchBetween {
 				st.fm.WaitIdle() // a retry comes after the first attempt was indexed
+			}
+			if fs.SearchBetween {
+				if _, err := st.g.Search(ctx, &pb.SearchRequest{Query: "service:c14", From: 1, To: int64(two63 - 1), Size: 10, Order: pb.Order_ORDER_DESC}); err != nil {
+					fmt.Println("child-error search-between:", err)
+					os.Exit(3)
+				}
+				fmt.Printf("I\tingest\tf%d.b%d\t%s\n", k, bi, activeOrder(st.fm))
 			}
 		}
 		st.fm.WaitIdle()
@@ -1252,6 +1280,9 @@ func childMain(path string) {
 	}
 	stageChecks := func(stage string) {
 		m := byName()
+		if stage == "live" || stage == "sealing" {
+			fmt.Printf("I\t%s\tactive\t%s\n", stage, activeOrder(st.fm))
+		}
 		for _, f := range fracs {
 			fr, ok := m[f.name]
 			if !ok {
@@ -1271,8 +1302,9 @@ func childMain(path string) {
 			}
 			return vh.JoinStrs(xs, ",")
 		}
+		query := "service:c14" // every document carries it; the negated forms below match every document as well
 		doSearch := func(label string, qf, qt uint64, order pb.Order) {
-			resp, err := st.g.Search(ctx, &pb.SearchRequest{Query: "service:c14", From: int64(qf), To: int64(qt), Size: 200000, WithTotal: true, Order: order})
+			resp, err := st.g.Search(ctx, &pb.SearchRequest{Query: query, From: int64(qf), To: int64(qt), Size: 200000, WithTotal: true, Order: order})
 			var want []realDoc
 			for _, d := range all {
 				if qf <= d.mid && d.mid <= qt {
@@ -1356,6 +1388,16 @@ func childMain(path string) {
 					if d.mid > 1000 && d.mid < two63 {
 						doSearch(fmt.Sprintf("p%d.%d.s", k, np), d.mid-1000, d.mid+1000, order)
 					}
+					// the same windows with a free-standing negation (evaluated through the range node over the narrowed
+					// LID borders): NOT <absent token> and a OR NOT b match every document
+					for qi, nq := range []string{"NOT service:c14absent", "service:c14absent OR NOT service:c14other"} {
+						query = nq
+						doSearch(fmt.Sprintf("p%d.%d.n%d", k, np, qi), d.mid, d.mid, order)
+						if d.mid > 1000 && d.mid < two63 && np%3 == 0 {
+							doSearch(fmt.Sprintf("p%d.%d.n%d.s", k, np, qi), d.mid-1000, d.mid+1000, order)
+						}
+					}
+					query = "service:c14"
 					np++
 				}
 			}
@@ -1836,10 +1878,52 @@ func sealRaceScenario(seed int64, variant int) scenario {
 	}}
 }
 
+// a bulk that holds both a document newer than everything stored and a late document far in the past, arriving after
+// the token lists were merged once (a search ran); on an active fraction (then sealed, reloaded) and on a sealed one
+func newestLateWitness(seed int64) scenario {
+	mk := func(sealed bool) fracSpec {
+		return fracSpec{Sealed: sealed, SearchBetween: true, Bulks: [][]docSpec{
+			{{Off: -900_000}, {Off: -800_000}, {Off: -700_000}},
+			{{Off: -100}, {Off: -2_000_000}},               // newest + late in one bulk
+			{{Off: -850_000}, {Off: -50}, {Off: -750_000}}, // late inside, newest, late inside
+			{{Off: -3_000_000}, {Off: -10}},
+		}}
+	}
+	return scenario{Name: "newest-late", Seed: seed, Queries: 12, Fetches: 4, Fracs: []fracSpec{mk(true), mk(false)}}
+}
+
+func newestLateScenario(r *vh.RNG, name string) scenario {
+	sc := scenario{Name: name, Seed: int64(r.U64() >> 1), Queries: 10, Fetches: 2}
+	for k := 0; k < 2; k++ {
+		fs := fracSpec{Sealed: k == 0, SearchBetween: true}
+		newest, oldest := int64(-1_000_000), int64(-1_100_000)
+		fs.Bulks = append(fs.Bulks, []docSpec{{Off: oldest}, {Off: newest}})
+		for b := 0; b < r.Range(2, 4); b++ {
+			var bulk []docSpec
+			for j := 0; j < r.Range(2, 4); j++ {
+				switch r.Intn(3) {
+				case 0:
+					newest += int64(r.Range(1, 200_000))
+					bulk = append(bulk, docSpec{Off: newest})
+				case 1:
+					oldest -= int64(r.Range(1, 400_000))
+					bulk = append(bulk, docSpec{Off: oldest})
+				default:
+					bulk = append(bulk, docSpec{Off: oldest + int64(r.Intn(int(newest-oldest)))})
+				}
+			}
+			fs.Bulks = append(fs.Bulks, bulk)
+		}
+		sc.Fracs = append(sc.Fracs, fs)
+	}
+	return sc
+}
+
 func systemOracle(o vh.Opts, rep *vh.Report, scs []scenario) {
 	fi := vh.NewChannel("frac.info", "REAL fractions (FracManager + GrpcV1.Bulk + seal + two restarts): Info().From/To/DocsTotal/Distribution and IsIntersecting on probe pairs vs SV.FracInfo (appendBulk per bulk, sealed = BuildDistribution over the stub and all MIDs); stages live / reloaded (.frac-cache) / reloaded-nocache (index info block); non-trivial = fraction has a distribution")
 	so := vh.NewOracle("prune.search", "real GrpcV1.Search(service:c14, [qf,qt]) over active+sealed fractions, live and after restarts, returns exactly the ingested documents with qf <= MID <= qt (every document of every fraction examined by the harness); non-trivial = some fraction was pruned and some document was in range")
 	lo := vh.NewOracle("search.toplimit", "real Searcher.SearchDocs over real active+sealed fractions that share boundary milliseconds (To of one = MIDs of another, several RIDs per millisecond on both sides), FractionsPerIteration 1..3, limits 1..n, both orders, no total: the IDs are exactly the first `limit` documents of the union in (MID,RID) order; non-trivial = limit > 1 and answer right")
+	io := vh.NewOracle("active.order", "invariant behind narrowing: after every bulk (token lists merged in between by a search) and at the live/sealing stages the active fraction's LID list of all documents is sorted by (MID,RID) descending; non-trivial = sorted list of >= 2")
 	fo := vh.NewOracle("prune.fetch", "real GrpcV1.Fetch(ids without hints) returns the ingested bytes of every requested document that exists, whatever other IDs are in the request; non-trivial = request mixes present and unknown IDs")
 	reported := map[string]bool{}
 	for i := range scs {
@@ -1865,6 +1949,18 @@ func systemOracle(o vh.Opts, rep *vh.Report, scs []scenario) {
 				rep.Note("%s: %s", sc.Name, f[1])
 			case "T":
 				fi.Tag(f[1])
+			case "I":
+				// I stage label result
+				io.Case(sc.Name+"/"+f[1]+"/"+f[2], strings.HasPrefix(f[3], "sorted") && f[3] != "sorted 0" && f[3] != "sorted 1", "stage="+f[1], "result="+strings.Fields(f[3])[0])
+				if strings.HasPrefix(f[3], "unsorted") {
+					site, class := "frac/active_lids.go:mergeSorted", "active-id-order-not-sorted"
+					if !reported[site+class] {
+						reported[site+class] = true
+						rep.Violate(vh.Violation{Site: site, Class: class,
+							What:   fmt.Sprintf("scenario %s stage %s at %s: the LIDs of all documents of the active fraction are not sorted by (MID,RID) descending (%s): binary searches over the ID order (getLIDsBorders) are unsound", sc.Name, f[1], f[2], f[3]),
+							Replay: []string{replay, "order " + f[1] + " " + f[2]}})
+					}
+				}
 			case "S":
 				// S stage q qf qt status kept want= missing= extra=
 				var qf, qt uint64
@@ -1879,6 +1975,10 @@ func systemOracle(o vh.Opts, rep *vh.Report, scs []scenario) {
 				}
 				if strings.HasPrefix(f[2], "p") {
 					tags = append(tags, "directed-per-document")
+				}
+				negated := strings.Contains(f[2], ".n0") || strings.Contains(f[2], ".n1")
+				if negated {
+					tags = append(tags, "negated-query")
 				}
 				if cross {
 					tags = append(tags, "range=crosses-2^63")
@@ -1896,6 +1996,8 @@ func systemOracle(o vh.Opts, rep *vh.Report, scs []scenario) {
 					site := "fracmanager/searcher.go:prepareFracs"
 					if f[8] == "missing=-" {
 						class = "document-outside-range-returned"
+					} else if f[13] == "kept" && negated {
+						site, class = "frac/processor/search.go:narrowed-scan", "negated-query-loses-document-in-narrowed-range"
 					} else if f[13] == "kept" {
 						// the fraction survived FilterInRange, the document was lost inside it: narrowing to the LID borders
 						site, class = "frac/processor/search.go:narrowed-scan", "document-in-range-not-returned-by-kept-fraction"
@@ -1959,6 +2061,7 @@ func systemOracle(o vh.Opts, rep *vh.Report, scs []scenario) {
 	rep.AddChannel(fi, o.Driver)
 	rep.AddOracle(so)
 	rep.AddOracle(lo)
+	rep.AddOracle(io)
 	rep.AddOracle(fo)
 }
 
@@ -2035,6 +2138,10 @@ func main() {
 		scs = append(scs, sparseLateScenario(int64(r.U64()>>1)))
 		scs = append(scs, tiesWitness(int64(r.U64()>>1)))
 		scs = append(scs, retriedWitness(int64(r.U64()>>1)))
+		scs = append(scs, newestLateWitness(int64(r.U64()>>1)))
+		for i := 0; i < o.Pick(2, 8); i++ {
+			scs = append(scs, newestLateScenario(r.Fork(), fmt.Sprintf("newest-late%d", i)))
+		}
 		scs = append(scs, sealRaceScenario(int64(r.U64()>>1), 0), sealRaceScenario(int64(r.U64()>>1), 1))
 		for i := 0; i < o.Pick(2, 8); i++ {
 			scs = append(scs, retriedScenario(r.Fork(), fmt.Sprintf("retried%d", i)))
